@@ -6,20 +6,28 @@ import "fmt"
 
 // The property oracle, evaluated on what the REAL client did (independent of the Lean model):
 // after every completed poll the stored head must be the delivered, not removed event with the
-// highest L1 block at or below the finalised height the provider reported (ties: the one
-// delivered last), or the head stored before the client started if there is no such event.
+// highest L1 block at or below the finalised height the provider reported (several events in one
+// L1 block: the one committing the highest Starknet block, which is the last one in log order),
+// or the head stored before the client started if there is no such event.
+//
 // It is evaluated only while the scripted provider is well-behaved in the sense of the property:
-// finalised heights never decrease, no removal at or below a finalised height, and every log in
-// a reorged block that was delivered gets its removal notice before the next poll that could
-// finalise it.
+//   - finalised heights never decrease (and are never below the L1 block of the head stored by
+//     an earlier life of the node),
+//   - no removal notice at or below a finalised height,
+//   - every delivered log of a reorged block gets its removal notice before a poll could
+//     finalise it (removal notices complete),
+//   - the finalised events are consistent with one canonical chain: the Starknet block number
+//     grows strictly with the position (L1 block, log order) of the event.
+// Nothing is assumed about the ORDER in which the provider delivers: re-deliveries of an event
+// (replays after a resubscription) and late deliveries of older events are inside the envelope.
 
 type entry struct {
-	log       Log
-	stamp     int
-	removed   bool // a removal notice for exactly this log was delivered later
-	reorgDead bool // a removal notice at or below its L1 block was delivered later
-	tickAtDel int  // number of polls completed when it was delivered
-	consumed  int  // number of the first poll (1-based) with fin >= l1 after delivery; 0 = none yet
+	log        Log
+	stamp      int  // position of the first delivery in the trace (-1: head stored before start)
+	removed    bool // a removal notice for exactly this log was delivered later
+	reorgDead  bool // a removal notice at or below its L1 block was delivered later
+	lastDelTik int  // number of polls completed when it was delivered last (first delivery or replay)
+	consumed   int  // number of the first poll (1-based) with fin >= l1 after the first delivery; 0 = none yet
 }
 
 func (e *entry) head() HeadJ { return HeadJ{L2: e.log.L2, Hash: e.log.Hash, Root: e.log.Root} }
@@ -34,14 +42,18 @@ func better(a, b *entry) bool { // a strictly better than b
 	if a.log.L1 != b.log.L1 {
 		return a.log.L1 > b.log.L1
 	}
-	return a.stamp > b.stamp
+	return a.log.L2 > b.log.L2
+}
+
+func sameLog(a, b Log) bool {
+	return a.L1 == b.L1 && a.L2 == b.L2 && a.Hash == b.Hash && a.Root == b.Root
 }
 
 func oracle(c *Case, sems []sem) (fs []finding, wbUntil int, stats map[string]int) {
 	stats = map[string]int{}
 	var es []*entry
 	if c.Stored != nil {
-		es = append(es, &entry{log: Log{L2: c.Stored.L2, Hash: c.Stored.Hash, Root: c.Stored.Root, L1: c.StoredL1}, stamp: -1, consumed: 0})
+		es = append(es, &entry{log: Log{L2: c.Stored.L2, Hash: c.Stored.Hash, Root: c.Stored.Root, L1: c.StoredL1}, stamp: -1})
 	}
 	wb := true
 	haveFin := false
@@ -60,7 +72,19 @@ func oracle(c *Case, sems []sem) (fs []finding, wbUntil int, stats map[string]in
 		switch s.kind {
 		case "upd":
 			if !s.log.Removed {
-				es = append(es, &entry{log: s.log, stamp: i, tickAtDel: ticks})
+				replay := false
+				for _, e := range es {
+					if !e.removed && sameLog(e.log, s.log) {
+						e.lastDelTik = ticks
+						replay = true
+						if e.consumed > 0 || e.stamp < 0 {
+							stats["replay-of-finalised-event"]++
+						}
+					}
+				}
+				if !replay {
+					es = append(es, &entry{log: s.log, stamp: i, lastDelTik: ticks})
+				}
 				continue
 			}
 			if haveFin && s.log.L1 <= lastFin {
@@ -68,12 +92,18 @@ func oracle(c *Case, sems []sem) (fs []finding, wbUntil int, stats map[string]in
 			}
 			for _, e := range es {
 				if e.stamp < 0 {
+					if e.log.L1 >= s.log.L1 {
+						notWB(i, "removal-at-or-below-finalised")
+					}
+					continue
+				}
+				if e.removed {
 					continue
 				}
 				if e.log.L1 >= s.log.L1 {
 					e.reorgDead = true
 				}
-				if e.log.L1 == s.log.L1 && e.log.L2 == s.log.L2 && e.log.Hash == s.log.Hash && e.log.Root == s.log.Root {
+				if sameLog(e.log, s.log) {
 					e.removed = true
 				}
 			}
@@ -85,21 +115,30 @@ func oracle(c *Case, sems []sem) (fs []finding, wbUntil int, stats map[string]in
 			}
 			haveFin, lastFin = true, F
 			var best *entry
+			var cands []*entry
 			for _, e := range es {
+				if e.stamp < 0 && e.log.L1 > F {
+					notWB(i, "finalised-height-below-stored-head")
+				}
 				if e.log.L1 > F {
 					continue
 				}
-				if e.stamp >= 0 && e.removed != e.reorgDead {
-					notWB(i, "removal-notices-incomplete-or-out-of-order")
-				}
-				if e.stamp >= 0 && e.removed && e.consumed > 0 {
-					notWB(i, "removal-of-finalised-log")
+				if e.stamp >= 0 && !e.removed && e.reorgDead {
+					notWB(i, "removal-notices-incomplete")
 				}
 				if e.removed {
 					continue
 				}
+				cands = append(cands, e)
 				if best == nil || better(e, best) {
 					best = e
+				}
+			}
+			for _, a := range cands {
+				for _, b := range cands {
+					if a != b && ((a.log.L1 < b.log.L1 && a.log.L2 >= b.log.L2) || (a.log.L1 == b.log.L1 && a.log.L2 == b.log.L2)) {
+						notWB(i, "l2-numbers-inconsistent-with-l1-order")
+					}
 				}
 			}
 			if !wb {
@@ -114,7 +153,7 @@ func oracle(c *Case, sems []sem) (fs []finding, wbUntil int, stats map[string]in
 			}
 			obs := s.after
 			if !headEq(obs, expected) {
-				fs = append(fs, classify(c, es, best, obs, prev, F, i))
+				fs = append(fs, classify(es, best, obs, prev, F, i))
 			} else {
 				if best != nil && best.stamp >= 0 {
 					stats["oracle-head-is-delivered-event"]++
@@ -128,9 +167,10 @@ func oracle(c *Case, sems []sem) (fs []finding, wbUntil int, stats map[string]in
 					fs = append(fs, finding{sig: "l1head-changed-without-notification",
 						what: fmt.Sprintf("stored head moved %s -> %s and no listener/feed notification", prev, obs), at: i})
 				}
-			}
-			if c.Canonical && obs != nil && prev != nil && obs.L2 < prev.L2 && headEq(obs, expected) {
-				fs = append(fs, finding{sig: "l1head-l2-regress", what: fmt.Sprintf("stored head went from L2 block %d back to %d", prev.L2, obs.L2), at: i})
+				if obs != nil && prev != nil && obs.L2 < prev.L2 {
+					fs = append(fs, finding{sig: "l1head-l2-regress",
+						what: fmt.Sprintf("stored head went from Starknet block %d back to %d", prev.L2, obs.L2), at: i})
+				}
 			}
 			for _, e := range es {
 				if e.consumed == 0 && e.stamp >= 0 && !e.removed && e.log.L1 <= F {
@@ -143,7 +183,7 @@ func oracle(c *Case, sems []sem) (fs []finding, wbUntil int, stats map[string]in
 	return fs, wbUntil, stats
 }
 
-func classify(c *Case, es []*entry, best *entry, obs, prev *HeadJ, F uint64, at int) finding {
+func classify(es []*entry, best *entry, obs, prev *HeadJ, F uint64, at int) finding {
 	exp := "none"
 	if best != nil {
 		h := best.head()
@@ -177,16 +217,13 @@ func classify(c *Case, es []*entry, best *entry, obs, prev *HeadJ, F uint64, at 
 	if len(live) == 0 {
 		return finding{"l1head-is-removed-event", base + "; that event was reported removed by a reorg", at}
 	}
-	cnd := live[0]
-	for _, e := range live {
-		if better(e, cnd) {
-			cnd = e
+	for _, cnd := range live {
+		if best != nil && cnd != best && better(best, cnd) &&
+			(best.stamp < 0 || (best.consumed > 0 && cnd.lastDelTik >= best.consumed)) {
+			return finding{"l1head-moves-back-to-late-delivered-older-event",
+				base + fmt.Sprintf("; the event at L1 block %d (Starknet block %d) was delivered after the head had already been set from L1 block %d (Starknet block %d)",
+					cnd.log.L1, cnd.log.L2, best.log.L1, best.log.L2), at}
 		}
-	}
-	if best != nil && cnd.stamp > best.stamp && cnd.log.L1 < best.log.L1 &&
-		(best.stamp < 0 || (best.consumed > 0 && cnd.tickAtDel >= best.consumed)) {
-		return finding{"l1head-moves-back-to-late-delivered-older-event",
-			base + fmt.Sprintf("; the event at L1 block %d was delivered after the head had already been set from L1 block %d", cnd.log.L1, best.log.L1), at}
 	}
 	if headEq(obs, prev) {
 		return finding{"l1head-not-advanced-to-highest-finalised-event", base, at}
